@@ -63,6 +63,20 @@ def loctStep (s : LocTSt) (tk : List String) : LocTSt × String :=
     match nat? a, nat? now with
     | some a, some now => (s, match getEntryEager s.c s.t a now with | some e => Entry.str a e | none => "none")
     | _, _ => (s, "bad-op")
+  | ["dple", l, sn, d] =>
+    -- `check_duplicate_sn` non-duplicate branch as Python runs it on deque(maxlen=l): "dple <L> <sn> <d1,d2,..|->"
+    match nat? l, nat? sn with
+    | some l, some sn =>
+      let ds := if d = "-" then some [] else (d.splitOn ",").foldr (fun x acc => match nat? x, acc with
+        | some v, some r => some (v :: r) | _, _ => none) (some [])
+      match ds with
+      | some ds =>
+        (s, match dplPushE l ds sn with
+          | .error _ => "IndexError"
+          | .ok r => "ok " ++ (if r.isEmpty then "-" else ",".intercalate (r.map toString)) ++
+              (if l > 0 && r == dplPush l ds sn then "" else " !ring"))
+      | none => (s, "bad-op")
+    | _, _ => (s, "bad-op")
   | ["nbrs"] => (s, match neighbours s.t with | [] => "-" | l => joinNat (l.foldr insNat []))
   | [op, a, b] =>
     match nat? a, nat? b with
